@@ -234,8 +234,9 @@ def _run(trace, log, stats, cur):
         elif kind == 'read':
             observe(g, deep)
         if new is not None and any(lv.g is new[0] for lv in pool):
+            # the deriving operation handed back an object that is already live: it is kept as a *separate handle*, so an
+            # in-place operation through the new handle that changes what the old handle reports is seen as what it is
             stats['probe:operation_returned_existing_object'] += 1
-            new = None  # the operation handed back an object that is already live (e.g. nothing to resolve): no new value
         if new is not None:
             stats['derive_ops'] += 1
             if len(pool) < trace.get('max_pool', 7):
